@@ -261,12 +261,14 @@ impl MultiState {
             .map(|(d, width)| d.visual_line_count(.., width))
             .unwrap_or_default();
 
-        // Track the total number of zombie lines on the screen
-        self.zombie_lines_count = self.zombie_lines_count.saturating_add(line_count);
-
         // Make `DrawTarget` forget about the zombie lines so that they aren't cleared on next draw.
-        self.draw_target
+        let kept = self
+            .draw_target
             .adjust_last_line_count(LineAdjust::Keep(line_count));
+
+        // Track the total number of zombie lines on the screen (the bar's lines are not on the
+        // screen if the `MultiProgress` was cleared since the last draw)
+        self.zombie_lines_count = self.zombie_lines_count.saturating_add(kept);
 
         self.remove_idx(index);
     }
@@ -359,10 +361,11 @@ impl MultiState {
         // so they aren't cleared on next draw. (If lines were printed above them, they are instead
         // left to be cleared by the next draw, like all other zombie lines.)
         if !prints_lines {
-            // Track the total number of zombie lines on the screen.
-            self.zombie_lines_count = self.zombie_lines_count.saturating_add(adjust);
-            self.draw_target
+            let kept = self
+                .draw_target
                 .adjust_last_line_count(LineAdjust::Keep(adjust));
+            // Track the total number of zombie lines on the screen.
+            self.zombie_lines_count = self.zombie_lines_count.saturating_add(kept);
         }
 
         drawable
